@@ -117,7 +117,7 @@ pub fn run_cli_stderr_unwritable(sc: &Scratch, args: &[&str]) -> CliOut {
         Ok(f) => Stdio::from(f),
         Err(e) => inconclusive(&format!("cannot open /dev/full: {e}")),
     };
-    let out = match Command::new(cli()).args(args).current_dir(&sc.dir).env("HOME", sc.home()).env_remove("RUST_BACKTRACE").stdin(Stdio::null()).stdout(Stdio::piped()).stderr(err).spawn() {
+    let out = match Command::new(cli()).args(args).current_dir(&sc.dir).env("HOME", sc.home()).env_remove("XDG_CONFIG_HOME").env_remove("RUST_BACKTRACE").stdin(Stdio::null()).stdout(Stdio::piped()).stderr(err).spawn() {
         Ok(c) => c.wait_with_output(),
         Err(e) => inconclusive(&format!("cannot spawn cgt-tool: {e}")),
     };
@@ -145,7 +145,7 @@ fn run_cli_with(sc: &Scratch, cwd: &Path, args: &[&str], stdout_full: bool) -> C
     let mut child = match Command::new(cli())
         .args(args)
         .current_dir(cwd)
-        .env("HOME", sc.home())
+        .env("HOME", sc.home()).env_remove("XDG_CONFIG_HOME")
         .env_remove("RUST_BACKTRACE")
         .stdin(Stdio::null())
         .stdout(out)
@@ -210,7 +210,7 @@ impl Mcp {
         let mut child = match Command::new(cli())
             .arg("mcp")
             .current_dir(&sc.dir)
-            .env("HOME", sc.home())
+            .env("HOME", sc.home()).env_remove("XDG_CONFIG_HOME")
             .stdin(Stdio::piped())
             .stdout(Stdio::piped())
             .stderr(Stdio::piped())
